@@ -21,3 +21,4 @@ def run(chk):
     X.rule_replace_after_close(chk, "C12.3", concurrency=True)
     X.rule_store_failure_contained(chk, "C12.4")
     X.rule_memory_marker_after_slot(chk, "C12.5")
+    X.rule_metadata_write_never_decorates_data(chk, "C12.6")
